@@ -4,8 +4,9 @@ import (
 	"context"
 	"errors"
 	"fmt"
+	"regexp"
 	"strconv"
-	"strings"
+	"unicode/utf8"
 
 	"github.com/scrapli/scrapligo/util"
 )
@@ -38,10 +39,41 @@ func (d *Driver) SessionID() uint64 {
 	return d.sessionID
 }
 
-// xmlUnescaper resolves the predefined XML entities in a capability URI ("&amp;" last).
-var xmlUnescaper = strings.NewReplacer( //nolint:gochecknoglobals
-	"&lt;", "<", "&gt;", ">", "&quot;", `"`, "&apos;", "'", "&amp;", "&",
+// xmlReference matches one XML reference: a predefined entity or a numeric character reference.
+var xmlReference = regexp.MustCompile( //nolint:gochecknoglobals
+	`&(?:lt|gt|quot|apos|amp|#[0-9]+|#x[0-9a-fA-F]+);`,
 )
+
+// xmlUnescape resolves the references in a capability URI, each exactly once (a single pass, so
+// that "&amp;#38;" stays "&#38;").
+func xmlUnescape(s string) string {
+	return xmlReference.ReplaceAllStringFunc(s, func(ref string) string {
+		switch ref {
+		case "&lt;":
+			return "<"
+		case "&gt;":
+			return ">"
+		case "&quot;":
+			return `"`
+		case "&apos;":
+			return "'"
+		case "&amp;":
+			return "&"
+		}
+
+		digits, base := ref[2:len(ref)-1], 10
+		if digits[0] == 'x' {
+			digits, base = digits[1:], 16
+		}
+
+		n, err := strconv.ParseInt(digits, base, 32)
+		if err != nil || !utf8.ValidRune(rune(n)) {
+			return ref
+		}
+
+		return string(rune(n))
+	})
+}
 
 type result struct {
 	b   []byte
@@ -113,7 +145,7 @@ func (d *Driver) processServerCapabilities() error {
 
 	d.serverCapabilities = make([]string, 0, len(serverCapabilitiesMatches))
 	for _, match := range serverCapabilitiesMatches {
-		d.serverCapabilities = append(d.serverCapabilities, xmlUnescaper.Replace(string(match[1])))
+		d.serverCapabilities = append(d.serverCapabilities, xmlUnescape(string(match[1])))
 	}
 
 	// extract session id if it exists in the hello message
